@@ -276,6 +276,19 @@ def getHosts (localRow : Row) (peers : List Row) (obj0 : Nat) : Option (List RHo
   | some h, some l => some (h :: l)
   | _, _ => none
 
+/-- the property's reported set: local host + the peers rows that are valid in the property's sense (same object numbering) -/
+def peersHostsSpec : List Row → Nat → List RHost
+  | [], _ => []
+  | r :: t, obj =>
+    match r.host obj 0 with
+    | some h => if r.validPeerSpec then h :: peersHostsSpec t (obj + 1) else peersHostsSpec t (obj + 1)
+    | none => peersHostsSpec t (obj + 1)
+
+def getHostsSpec (localRow : Row) (peers : List Row) (obj0 : Nat) : List RHost :=
+  match localRow.host obj0 0 with
+  | some h => h :: peersHostsSpec peers (obj0 + 1)
+  | none => peersHostsSpec peers (obj0 + 1)
+
 /-! ### HostInfo.update: address fields of a stored object are filled in place
 
 `update` copies `peer`, `broadcast_address`, `connectAddress` (among others) from the reported object
@@ -303,6 +316,38 @@ def View.updateObj (v : View) (obj a c : Nat) : View :=
     ring := { v.ring with byId := v.ring.byId.map (fun e => (e.1, setAC a c e.2 obj)), list := v.ring.list.map (setAC a c · obj) }
     pools := v.pools.map (fun e => (e.1, setAC a c e.2 obj))
     pol := { ta := v.pol.ta.map (setAC a c · obj), loc := v.pol.loc.map (setAC a c · obj), rem := v.pol.rem.map (setAC a c · obj) } }
+
+/-! ### the property's oracles, evaluated on a view (the harness evaluates the same predicates on the
+snapshots of the real Session) -/
+
+def subsetB (l1 l2 : List Nat) : Bool := l1.all (fun x => l2.contains x)
+
+/-- the ring's object of host id `h.id` carries the addresses of `h` -/
+def View.storedMatches (v : View) (h : RHost) : Bool :=
+  match v.ring.getHost h.id with
+  | some s => s.addr == h.addr && s.caddr == h.caddr
+  | none => false
+
+/-- clauses of "the view follows the report" that do NOT hold: 1 ring ids ⊆ accepted ids, 2 accepted ids ⊆
+ring ids, 3 pools only of accepted ids, 4 policy entries only of accepted ids, 5 every id new in the ring
+(not in `prevIds`) has a pool, 6 the stored object of every accepted host has the reported addresses -/
+def View.followsViolations (env : Env) (prevIds : List Nat) (v : View) (reported : List RHost) : List Nat :=
+  let acc := reported.filter (fun h => !env.filter h)
+  let accIds := acc.map (·.id)
+  (if subsetB v.ring.ids accIds then [] else [1]) ++
+  (if subsetB accIds v.ring.ids then [] else [2]) ++
+  (if subsetB (v.pools.map (·.1)) accIds then [] else [3]) ++
+  (if subsetB (v.pol.all.map (·.id)) accIds then [] else [4]) ++
+  (if (v.ring.ids.filter (fun id => !prevIds.contains id)).all (fun id => hasKey v.pools id) then [] else [5]) ++
+  (if acc.all v.storedMatches then [] else [6])
+
+/-- host ids new in the ring (not in `prevIds`) whose stored object is in neither fallback list of the policy -/
+def View.newNotInPolicy (prevIds : List Nat) (v : View) : List Nat :=
+  (v.ring.byId.filter (fun e => !prevIds.contains e.1 && !(v.pol.loc.contains e.2 || v.pol.rem.contains e.2))).map (·.1)
+
+/-- the objects of `tracked` that the executor could use: in a policy list, state up, pool present -/
+def View.offeredObjs (v : View) (tracked : List Nat) : List Nat :=
+  tracked.filter (fun o => !v.down.contains o && v.pol.all.any (fun h => h.obj == o && hasKey v.pools h.id))
 
 /-! ### eventDebouncer: at most `eventBufferSize` frames per window, later ones are dropped -/
 
